@@ -2,7 +2,10 @@
 
 package flyt
 
-import "context"
+import (
+	"context"
+	"fmt"
+)
 
 // C02 — retry budget and fallback are exact.
 
@@ -29,7 +32,16 @@ func (n *c02Node) Exec(ctx context.Context, p any) (any, error) {
 	vAssert(n.okAt == 0, "no-attempt-after-success")
 	n.calls++
 	if vNondet[bool]("fail") {
-		n.lastErr = vNewErr()
+		switch vChoice("errForm", 3) {
+		case 0:
+			n.lastErr = vNewErr()
+		case 1:
+			// an attempt that failed because of its OWN inner timeout / cancellation: still just a failed attempt
+			n.lastErr = fmt.Errorf("inner call: %w", context.Canceled)
+			vCover("attempt-error-wraps-context.Canceled")
+		default:
+			n.lastErr = fmt.Errorf("inner call: %w", context.DeadlineExceeded)
+		}
 		if n.firstErr == nil {
 			n.firstErr = n.lastErr
 		}
